@@ -104,7 +104,7 @@ class StatsProblem(object):
             self.__dict__.update(self.from_json(data))
             return
         self.th = dict(th if th is not None else DEFAULT_TH)
-        n_leaves = n_leaves or rng.choice([2, 3, 4, 5, 6, 6, 7, 9])
+        n_leaves = n_leaves or rng.choice([2, 3, 4, 5, 6, 6, 7, 9, 3, 5])
         n_genes = n_genes or rng.choice([3, 8, 12, 20, 31, 40])
         names = set()
         while len(names) < n_leaves:
@@ -184,6 +184,8 @@ class StatsProblem(object):
         thresholds; make duplicated genes (tied p-values); zero variance"""
         G = len(self.genes)
         srt = sorted(self.leaves)
+        if len(srt) < 2:
+            return
         a, b = srt[0], srt[1]
         th = self.th
         slots = list(range(G))
@@ -452,7 +454,8 @@ def classify_error(exc, stderr_text):
             ('do not overlap genes', 'no-gene-overlap'),
             ('cannot calculate boring_t', 'p_th-too-small'),
             ('arrays used as indices must be of integer', 'empty-gene-idx'),
-            ('All chunk dimensions must be positive', 'empty-direction')]
+            ('All chunk dimensions must be positive', 'empty-direction'),
+            ("not supported between instances of 'NoneType'", 'no-pairs')]
     for pat, name in pats:
         if pat in txt:
             return name
